@@ -98,6 +98,10 @@ func Compare(in, out string, keepNumbers bool) (kind, what string) {
 		if !okx || !oky || !x.Equal(y) {
 			return "number-value", fmt.Sprintf("number %q became %q", a[i].Text, b[i].Text)
 		}
+		// a JSON number is read as an IEEE double by nearly every consumer: -0 and 0 are different values there
+		if x.IsZero() && strings.HasPrefix(a[i].Text, "-") != strings.HasPrefix(b[i].Text, "-") {
+			return "number-value", fmt.Sprintf("number %q became %q (the sign of zero changed)", a[i].Text, b[i].Text)
+		}
 	}
 	return "", ""
 }
